@@ -52,6 +52,7 @@ type FuncContract struct {
 	Pure     bool
 	NoAuto   bool
 	CallsArg int // 1+index of the function argument this function is trusted to call once (0 = none)
+	MayCallArg int // 1+index of a callback invoked at most once
 	Preserve []string // keys the function is declared not to write (checked against frame)
 	File     string
 	Line     int
@@ -115,7 +116,7 @@ type UFun struct {
 
 var clauseRe = regexp.MustCompile(`^([A-Za-z0-9_.]+):\s*(.*)$`)
 
-var keywords = map[string]bool{"func": true, "props": true, "safety": true, "requires": true, "ensures": true, "loop": true, "site": true, "inline": true, "trusted": true, "pred": true, "callers": true, "writers": true, "dyncall": true, "chan": true, "cover": true, "pure": true, "ufun": true, "preserves": true, "noauto": true, "package": true, "layout": true, "callsarg": true, "specfn": true, "lemma": true, "apply": true, "assume": true, "raincallers": true, "ghostset": true}
+var keywords = map[string]bool{"func": true, "props": true, "safety": true, "requires": true, "ensures": true, "loop": true, "site": true, "inline": true, "trusted": true, "pred": true, "callers": true, "writers": true, "dyncall": true, "chan": true, "cover": true, "pure": true, "ufun": true, "preserves": true, "noauto": true, "package": true, "layout": true, "callsarg": true, "specfn": true, "lemma": true, "apply": true, "assume": true, "raincallers": true, "ghostset": true, "maycallarg": true}
 
 func loadContracts(root string) (*Contracts, error) {
 	cs := &Contracts{Funcs: map[string]*FuncContract{}, Preds: map[string]*Pred{}, UFuns: map[string]*UFun{}, Lemmas: map[string]*Lemma{}}
@@ -222,6 +223,15 @@ func (cs *Contracts) parseFile(path, pkg string) error {
 				return fmt.Errorf("%s:%d: callsarg index: %v", path, d.line, err)
 			}
 			cur.CallsArg = n + 1
+			cur.TrustWhy = strings.TrimSpace(strings.TrimPrefix(rest, fs[1]))
+		case "maycallarg":
+			// trusted: besides its own effects the function calls its n-th (function-typed)
+			// argument at most once, with arbitrary arguments, and does not retain it
+			n, err := strconv.Atoi(fs[1])
+			if err != nil {
+				return fmt.Errorf("%s:%d: maycallarg index: %v", path, d.line, err)
+			}
+			cur.MayCallArg = n + 1
 			cur.TrustWhy = strings.TrimSpace(strings.TrimPrefix(rest, fs[1]))
 		case "pure":
 			cur.Pure = true
